@@ -38,6 +38,7 @@ func c04(c *Ctx) {
 	c04zrpcServer(c)
 	c04zrpcClient(c)
 	c04clientInstallsTimeout(c)
+	c04noDetachedContexts(c)
 	c04fx(c)
 	c04engine(c)
 	c04serverDeadline(c)
@@ -1300,4 +1301,39 @@ func c04clientInstallsTimeout(c *Ctx) {
 	if !sawSwitch {
 		c.R.Undecided(rule, pkg+".(*client).buildUnaryInterceptors#switch", "the middleware switch for the timeout interceptor is recognised", "no branch on middlewares.Timeout")
 	}
+}
+
+// c04noDetachedContexts (C04.R7, round 8): deadlines only shrink — through every hop. A context derived for an outgoing
+// call inherits the caller's deadline and cancellation only if it is derived from the caller's context;
+// context.WithoutCancel strips both, and a timeout applied on top of it restarts the clock: the work runs on after its
+// caller's deadline (a gateway answering 503 at the route timeout while the upstream call continues for its own, longer,
+// timeout). No function of the module calls context.WithoutCancel (who-may-call over every call site of package context).
+func c04noDetachedContexts(c *Ctx) {
+	rule := "C04.R7"
+	var bad []string
+	sites := 0
+	for _, pk := range c.P.Pkgs {
+		rel := strings.TrimPrefix(pk.PkgPath, mod)
+		for _, fn := range c.P.AllFuncs(rel) {
+			for _, b := range fn.Blocks {
+				for _, ins := range b.Instrs {
+					call, ok := ins.(ssa.CallInstruction)
+					if !ok {
+						continue
+					}
+					cal := call.Common().StaticCallee()
+					if cal == nil || cal.Pkg == nil || cal.Pkg.Pkg.Path() != "context" {
+						continue
+					}
+					sites++
+					if cal.Name() == "WithoutCancel" {
+						bad = append(bad, fmt.Sprintf("%s: %s derives a context with context.WithoutCancel: the caller's deadline and cancellation do not reach what runs under it", c.P.Pos(call.Pos()), funcDisplay(fn)))
+					}
+				}
+			}
+		}
+	}
+	sortStrings(bad)
+	o := c.R.Check(len(bad) == 0 && sites >= 20, rule, "module#context-derivations", "no function of the module derives a context with context.WithoutCancel (every derived context keeps its parent's deadline and cancellation)", "-", fmt.Sprintf("%d call sites of package context; %s", sites, strings.Join(bad, "; ")), bad, sites)
+	o.Sites = sites
 }
